@@ -1,0 +1,46 @@
+//go:build verif
+
+// Contracts for package matlab/binary, read by /verif/govc (comment-only file; excluded from every build without the tag "verif").
+package binary
+
+// The serializer expression of every type follows the serialization plan of docs/reference/binary.md, like the C++
+// and Python generators:
+//   nil -> none; primitive p -> <P>Serializer; enum -> EnumSerializer(.., serializer of its base type, int32 when
+//   omitted); alias -> serializer of its target; T? -> OptionalSerializer(T); stream / vector / fixed vector(length) /
+//   NDArray(rank) / dynamic NDArray / map(key, value) wrap the serializer of the element type.
+// scalarSer names the result of the local closure getScalarSerializer.
+//@ spec func scalarSer(t *dsl.GeneralizedType, ns string, named *dsl.NamedType) string
+
+//@ func typeDefinitionSerializer
+//@   property C14
+//@   pure
+//@   ensures primitive_by_name: typeof(td) == dsl.PrimitiveDefinition ==> result == "yardl.binary." + lastResult(formatting.ToPascalCase) + "Serializer"
+//@   ensures enum_uses_declared_base: typeof(td) == *dsl.EnumDefinition && td.(*dsl.EnumDefinition) != nil && td.(*dsl.EnumDefinition).BaseType != nil ==> result == "yardl.binary.EnumSerializer('" + common.TypeSyntax(td, contextNamespace) + "', @" + common.TypeSyntax(td, contextNamespace) + ", " + typeSerializer(td.(*dsl.EnumDefinition).BaseType, contextNamespace, nil) + ")"
+//@   ensures enum_defaults_to_int32: typeof(td) == *dsl.EnumDefinition && td.(*dsl.EnumDefinition) != nil && td.(*dsl.EnumDefinition).BaseType == nil ==> result == "yardl.binary.EnumSerializer('" + common.TypeSyntax(td, contextNamespace) + "', @" + common.TypeSyntax(td, contextNamespace) + ", " + typeSerializer(dsl.Int32Type, contextNamespace, nil) + ")"
+//@   ensures alias_is_transparent: typeof(td) == *dsl.NamedType && td.(*dsl.NamedType) != nil ==> result == typeSerializer(td.(*dsl.NamedType).Type, contextNamespace, td.(*dsl.NamedType))
+//@   ensures type_parameter_by_name: typeof(td) == *dsl.GenericTypeParameter && td.(*dsl.GenericTypeParameter) != nil ==> result == formatting.ToSnakeCase(td.(*dsl.GenericTypeParameter).Name) + "_serializer"
+
+//@ func typeSerializer@getScalarSerializer
+//@   property C14
+//@   requires t != nil
+//@   names result == scalarSer(t, contextNamespace, namedType)
+//@   ensures single_case_is_transparent: t.Cases.IsSingle() ==> result == typeSerializer(t.Cases[0].Type, contextNamespace, namedType)
+//@   ensures optional_wraps_second_case: !t.Cases.IsSingle() && t.Cases.IsOptional() ==> result == "yardl.binary.OptionalSerializer(" + typeSerializer(t.Cases[1].Type, contextNamespace, namedType) + ")"
+//@   iteration 0: union_cases_in_order: (c.Type == nil ==> serializers[i] == "yardl.binary.NoneSerializer") && (c.Type != nil ==> serializers[i] == typeSerializer(c.Type, contextNamespace, namedType))
+
+//@ spec func gen(t dsl.Type) *dsl.GeneralizedType = t.(*dsl.GeneralizedType)
+//@ spec func dim(t dsl.Type) dsl.Dimensionality = t.(*dsl.GeneralizedType).Dimensionality
+//@ spec func isGenT(t dsl.Type) bool = typeof(t) == *dsl.GeneralizedType && t.(*dsl.GeneralizedType) != nil
+
+//@ func typeSerializer
+//@   property C14
+//@   pure
+//@   ensures none: t == nil ==> result == "yardl.binary.NoneSerializer"
+//@   ensures simple_by_definition: typeof(t) == *dsl.SimpleType && t.(*dsl.SimpleType) != nil ==> result == typeDefinitionSerializer(t.(*dsl.SimpleType).ResolvedDefinition, contextNamespace)
+//@   ensures scalar: isGenT(t) && dim(t) == nil ==> result == scalarSer(gen(t), contextNamespace, namedType)
+//@   ensures stream: isGenT(t) && typeof(dim(t)) == *dsl.Stream ==> result == "yardl.binary.StreamSerializer(" + scalarSer(gen(t), contextNamespace, namedType) + ")"
+//@   ensures vector: isGenT(t) && typeof(dim(t)) == *dsl.Vector && dim(t).(*dsl.Vector) != nil && dim(t).(*dsl.Vector).Length == nil ==> result == "yardl.binary.VectorSerializer(" + scalarSer(gen(t), contextNamespace, namedType) + ")"
+//@   ensures fixed_vector_carries_length: isGenT(t) && typeof(dim(t)) == *dsl.Vector && dim(t).(*dsl.Vector) != nil && dim(t).(*dsl.Vector).Length != nil ==> result == "yardl.binary.FixedVectorSerializer(" + scalarSer(gen(t), contextNamespace, namedType) + ", " + itoa(*dim(t).(*dsl.Vector).Length) + ")"
+//@   ensures ndarray_carries_rank: isGenT(t) && typeof(dim(t)) == *dsl.Array && dim(t).(*dsl.Array) != nil && !dim(t).(*dsl.Array).IsFixed() && dim(t).(*dsl.Array).HasKnownNumberOfDimensions() ==> result == "yardl.binary.NDArraySerializer(" + scalarSer(gen(t), contextNamespace, namedType) + ", " + itoa(len(*dim(t).(*dsl.Array).Dimensions)) + ")"
+//@   ensures dynamic_ndarray: isGenT(t) && typeof(dim(t)) == *dsl.Array && dim(t).(*dsl.Array) != nil && !dim(t).(*dsl.Array).IsFixed() && !dim(t).(*dsl.Array).HasKnownNumberOfDimensions() ==> result == "yardl.binary.DynamicNDArraySerializer(" + scalarSer(gen(t), contextNamespace, namedType) + ")"
+//@   ensures map_key_then_value: isGenT(t) && typeof(dim(t)) == *dsl.Map && dim(t).(*dsl.Map) != nil ==> result == "yardl.binary.MapSerializer(" + typeSerializer(dim(t).(*dsl.Map).KeyType, contextNamespace, namedType) + ", " + typeSerializer(gen(t).ToScalar(), contextNamespace, namedType) + ")"
